@@ -8,6 +8,9 @@ kinds of payload
   graphs   : container graphs given as abstract heaps (sharing, cycles) -> round trips -> canonical heap
   states   : __getstate__/__setstate__ and save_hdf5/from_hdf5 facts observed at run time (arity probe)
   reduce   : objects whose __reduce__ returns listitems / dictitems / state (F13)
+  pipe_reinit : LegPipe(legs, qconj, sort, bunch) -> Hdf5Saver into an h5py file (read back RAW with h5py: attrs
+             sorted/bunched/qconj, chinfo, legs, slices/charges) -> Hdf5Loader and pickle; attributes of the
+             constructed / loaded / unpickled pipe (checked by Model/PipeReinitCheck.v:check_pipe_reinit)
 """
 import copy
 import io
@@ -727,6 +730,119 @@ def run_states(case):
     return out
 
 
+# ------------------------------------------------------------------------------------------------
+# LegPipe re-initialisation (Model/PipeReinit.v): what save_hdf5 writes, what from_hdf5 / pickle rebuild
+# ------------------------------------------------------------------------------------------------
+
+def _ilist(a):
+    return [int(x) for x in np.asarray(a).reshape(-1)]
+
+
+def _ill(a, ncol=None):
+    a = np.asarray(a)
+    if a.ndim != 2:
+        raise ValueError('expected a 2D array, got shape %r' % (a.shape,))
+    return [[int(x) for x in row] for row in a]
+
+
+def _rd(ds):
+    """dataset -> integer array (h5py cannot slice datasets with a zero dimension)"""
+    if 0 in ds.shape:
+        return np.zeros(ds.shape, np.int64)
+    return np.asarray(ds[...])
+
+
+def _raw_leg(g):
+    """(block sizes+charges, qconj) of the LegCharge part stored in h5py group g (formats blocks / compact), read raw"""
+    fmt = g.attrs['format']
+    fmt = fmt.decode() if isinstance(fmt, bytes) else str(fmt)
+    if fmt == 'blocks':
+        slices = _ilist(_rd(g['slices']))
+        charges = _ill(_rd(g['charges']))
+    elif fmt == 'compact':
+        bc = _rd(g['blockcharges'])
+        slices = _ilist(bc[:, 0]) + [int(bc[-1, 1])]
+        charges = _ill(bc[:, 2:])
+    else:
+        raise ValueError('format %r' % fmt)
+    if len(charges) != len(slices) - 1 or len(charges) != int(g.attrs['block_number']):
+        raise ValueError('block_number / slices / charges of the file do not fit')
+    return slices, charges, int(g.attrs['qconj'])
+
+
+def _pipe_rec(p):
+    from tenpy.linalg.charges import LegPipe
+    assert type(p) is LegPipe, type(p)
+    legs = []
+    for l in p.legs:
+        sl = _ilist(l.slices)
+        legs.append([[b - a for a, b in zip(sl[:-1], sl[1:])], _ill(l.charges), int(l.qconj)])
+    return {'charges': _ill(p.charges), 'slices': _ilist(p.slices), 'q_map': _ill(p.q_map), 'q_map_slices': _ilist(p.q_map_slices),
+            'perm': None if p._perm is None else _ilist(p._perm), 'strides': _ilist(p._strides),
+            'sorted': bool(p.sorted), 'bunched': bool(p.bunched), 'is_bool': [type(p.sorted).__name__, type(p.bunched).__name__],
+            'legs': legs, 'qconj': int(p.qconj), 'mods': _ilist(p.chinfo.mod),
+            'nlegs': int(p.nlegs), 'subshape': _ilist(p.subshape), 'subqshape': _ilist(p.subqshape), 'ind_len': int(p.ind_len),
+            'block_number': int(p.block_number)}
+
+
+def run_pipe_reinit(case):
+    import h5py
+    from tenpy.linalg.charges import ChargeInfo, LegCharge, LegPipe
+    from tenpy.tools import hdf5_io
+    out = {}
+    try:
+        ci = ChargeInfo(list(case['mods']))
+        legs = []
+        for sizes, charges, qconj in case['legs']:
+            ch = ci.make_valid(np.array(charges, dtype=np.int64).reshape(len(sizes), ci.qnumber))
+            legs.append(LegCharge.from_qind(ci, np.cumsum([0] + list(sizes)), ch, qconj))
+        p = LegPipe(legs, qconj=case['qconj'], sort=case['sort'], bunch=case['bunch'])
+        out['orig'] = _pipe_rec(p)
+        with tempfile.TemporaryDirectory(prefix='c17p_', dir=os.environ.get('C17_TMP', None)) as d:
+            fn = os.path.join(d, 'p.h5')
+            with h5py.File(fn, 'w') as f:
+                hdf5_io.Hdf5Saver(f, {'LegCharge': case['format']}).save(p)       # -> LegPipe.save_hdf5
+            with h5py.File(fn, 'r') as f:
+                g = f['/']
+                fr = {'attrs': sorted(g.attrs.keys()), 'members': sorted(g.keys())}
+                for k in ('sorted', 'bunched'):
+                    v = g.attrs[k]
+                    if np.asarray(v).dtype.kind != 'b' or np.asarray(v).shape != ():
+                        raise ValueError('attribute %r of the file is not a boolean scalar: %r' % (k, v))
+                    fr[k] = bool(v)
+                sl, ch, qc = _raw_leg(g)
+                fr.update(slices=sl, charges=ch, qconj=qc, ind_len=int(g.attrs['ind_len']))
+                fr['mods'] = _ilist(_rd(g['chinfo']['U1_ZN']))
+                lg = g['legs']
+                n = int(lg.attrs['len'])
+                fl = []
+                for i in range(n):
+                    lsl, lch, lqc = _raw_leg(lg[str(i)])
+                    fl.append([[b - a for a, b in zip(lsl[:-1], lsl[1:])], lch, lqc])
+                    lm = _ilist(_rd(lg[str(i)]['chinfo']['U1_ZN']))
+                    if lm != fr['mods']:
+                        raise ValueError('chinfo of leg %d in the file differs from the chinfo of the pipe' % i)
+                if sorted(lg.keys()) != sorted(str(i) for i in range(n)):
+                    raise ValueError('legs group has members %r' % (sorted(lg.keys()),))
+                fr['legs'] = fl
+                out['file'] = fr
+            with h5py.File(fn, 'r') as f:
+                q = hdf5_io.Hdf5Loader(f, ignore_unknown=False).load()             # -> LegPipe.from_hdf5
+            out['h5'] = _pipe_rec(q)
+            q.test_sanity()
+            LegCharge.test_sanity(q)
+        r = pickle.loads(pickle.dumps(p))
+        out['pickle'] = _pipe_rec(r)
+        r.test_sanity()
+        LegCharge.test_sanity(r)
+    except Exception as e:
+        tb = traceback.extract_tb(e.__traceback__)
+        out['error'] = type(e).__name__
+        out['message'] = str(e)[:300]
+        out['where'] = '%s:%s' % (os.path.basename(tb[-1].filename), tb[-1].name) if tb else ''
+    return out
+
+
 def main():
     fin, fout = sys.argv[1], sys.argv[2]
     payload = json.load(open(fin))
@@ -741,6 +857,8 @@ def main():
         res = run_reduce(payload)
     elif kind == 'states':
         res = run_states(payload)
+    elif kind == 'pipe_reinit':
+        res = [run_pipe_reinit(c) for c in payload['cases']]
     elif kind == 'list_generators':
         import c17_gen
         res = {'generators': {k: getattr(v, 'variants', 1) for k, v in c17_gen.GENERATORS.items()}}
